@@ -93,8 +93,12 @@ def mid_str(rng):
         return 'm' * (n - 2) + 'é'            # the same byte length with a 2-byte character at the end
     return '€' * (n // 3) + 'z' * (n % 3)
 
+SMALL_ONLY = [0]        # > 0 while the items of a large collection are generated: no multi-kilobyte strings inside them
+
 def gen_str(rng):
     if rng.chance(1, 40):
+        if SMALL_ONLY[0]:
+            return 'big' * 5
         return big_str(rng)
     if rng.chance(1, 14):
         return mid_str(rng)
@@ -107,7 +111,7 @@ def gen_str(rng):
 def gen_bytes(rng, n=None):
     if n is None:
         if rng.chance(1, 40):
-            n = rng.choice(BIG)
+            n = rng.choice(BIG) if not SMALL_ONLY[0] else 15
             return bytes((i * 31 + 7) & 0xff for i in range(n))
         if rng.chance(1, 14):
             return rng.bytes(rng.choice(MID))
@@ -305,7 +309,11 @@ def gen_schema(ctx, depth, ens, in_union=False, rec_stack=()):
                 # a large collection, its size around a power of two (block splitting, count prefixes of 2 bytes);
                 # the items are generated as if deeply nested, so that they stay small
                 n = r.choice(MANY)
-                return "(array%s)" % ''.join(' ' + it.gen(r, d + 4) for _ in range(n))
+                SMALL_ONLY[0] += 1
+                try:
+                    return "(array%s)" % ''.join(' ' + it.gen(r, d + 4) for _ in range(n))
+                finally:
+                    SMALL_ONLY[0] -= 1
             return "(array%s)" % ''.join(' ' + it.gen(r, d + 1) for _ in range(n))
         return Node({"type": "array", "items": it.json}, g, "array")
     if choice == 3:
@@ -315,7 +323,11 @@ def gen_schema(ctx, depth, ens, in_union=False, rec_stack=()):
             n = 0 if d > 4 else r.choice([0, 1, 2, 3])
             if d <= 1 and r.chance(1, 80):
                 n = r.choice(MANY)
-                return "(map%s)" % ''.join(' (kv %s %s)' % (hx('k%d' % q), vt.gen(r, d + 4)) for q in range(n))
+                SMALL_ONLY[0] += 1
+                try:
+                    return "(map%s)" % ''.join(' (kv %s %s)' % (hx('k%d' % q), vt.gen(r, d + 4)) for q in range(n))
+                finally:
+                    SMALL_ONLY[0] -= 1
             keys = []
             while len(keys) < n:
                 k = gen_str(r)
